@@ -192,6 +192,14 @@ func (s *Server) writeAOF(args []string, d *commandDetails) error {
 	if s.shrinking {
 		if d != nil && d.command == "rename" {
 			s.shrinklog = append(s.shrinklog, s.shrinkRenameCommands(d)...)
+		} else if cmd := strings.ToLower(args[0]); d != nil && d.obj != nil &&
+			(cmd == "jset" || cmd == "jdel") {
+			// JSET/JDEL on an array position (append with -1, delete by
+			// index) give a different result when applied twice, and the
+			// rewrite may already hold the object as it is now. Record the
+			// resulting object instead of the edit.
+			s.shrinklog = append(s.shrinklog,
+				shrinkSetValues(nil, d.key, d.obj, time.Now().UnixNano()))
 		} else {
 			nargs := make([]string, len(args))
 			copy(nargs, args)
